@@ -1,4 +1,5 @@
 import QrlModel.Proofs.BdsLabel10
+import QrlModel.Proofs.Seg.H12
 import QrlModel.Proofs.XmssE2E
 /-! # C01 — every XMSS signature over the key's whole life verifies
 
@@ -6,7 +7,8 @@ import QrlModel.Proofs.XmssE2E
 function with 32-byte output, every message and every history of Sign / forward SetIndex calls**, the
 signature the key returns verifies under its public key. The label-level check is a kernel evaluation
 (`decide +kernel`) of the node-value-independent traversal model over all 2^h indices; it is proved here for
-h ∈ {4, 6, 8, 10} (`C01_h4 … C01_h10`). The remaining supported heights 12..30 are `C01_partial`: every lemma
+h ∈ {4, 6, 8, 10} monolithically and for h = 12 from segment certificates (`C01_h4 … C01_h12`; h = 14 in
+`Props/C01Thorough`). The remaining supported heights up to 30 are `C01_partial`: every lemma
 used is height-generic except that one evaluation; for them the property rests on the correspondence run
 (label-mode state dumps of the real traversal compared index by index with the Lean label model).
 
@@ -17,16 +19,10 @@ so the label theorem transfers to every seed/hash), `Proofs/Wots` (chain complet
 namespace Qrl.Xmss.C01
 open Qrl.BdsLabel Qrl.Bds Qrl.BdsRel Qrl.Xmss.C02 Qrl.Xmss.C08
 
-/-- for height `h`, at every index `i < 2^h`, after `i` traversal steps from key generation the stored
-authentication path is the sibling path of leaf `i`, and key generation returns the tree root -/
-def TraversalCorrect (h : Nat) : Prop :=
-  (treeHashSetup BdsLabel.ops h).2 = .nd h 0 ∧
-  ∀ i, i < 2 ^ h → (fastForward BdsLabel.ops h i 0 (treeHashSetup BdsLabel.ops h).1).auth = trueAuth h i
-
-theorem traversal_h4 : TraversalCorrect 4 := checkAll_sound 4 bds_h4
-theorem traversal_h6 : TraversalCorrect 6 := checkAll_sound 6 bds_h6
-theorem traversal_h8 : TraversalCorrect 8 := checkAll_sound 8 bds_h8
-theorem traversal_h10 : TraversalCorrect 10 := checkAll_sound 10 bds_h10
+theorem traversal_h4 : TraversalCorrect 4 := traversal_of_checkAll 4 bds_h4
+theorem traversal_h6 : TraversalCorrect 6 := traversal_of_checkAll 6 bds_h6
+theorem traversal_h8 : TraversalCorrect 8 := traversal_of_checkAll 8 bds_h8
+theorem traversal_h10 : TraversalCorrect 10 := traversal_of_checkAll 10 bds_h10
 
 section
 variable (hashOf : Nat → Bytes → Bytes) (shake256 : Bytes → Nat → Bytes)
@@ -42,7 +38,7 @@ def C01Statement (h : Nat) : Prop :=
     (ops : List Op) (_ : ∀ op ∈ ops, opOK op) (msg : Bytes) (_ : (specRun h 0 ops).1 < 2 ^ h),
     ∃ sig k', sign hashOf (run hashOf k0 ops).1 msg = .ok (k', sig) ∧ verify hashOf msg sig k0.pk = .ok true
 
-theorem C01_height (h : Nat) (hc : checkAll h = true) (h4 : 4 ≤ h) (heven : h % 2 = 0) (h30 : h ≤ 30) :
+theorem C01_height (h : Nat) (hc : TraversalCorrect h) (h4 : 4 ≤ h) (heven : h % 2 = 0) (h30 : h ≤ 30) :
     C01Statement hashOf shake256 h := by
   intro hlen seed hs d hh hst hhf haf k0 hk ops hops msg hleft
   -- the root is a hash output
@@ -61,14 +57,16 @@ theorem C01_height (h : Nat) (hc : checkAll h = true) (h4 : 4 ≤ h) (heven : h 
   rw [hhist]
   exact verify_sign_at hashOf h hc hlen k0 d (shake256 seed 96) hs hg hh h4 heven h30 hst hhf haf _ hleft msg
 
-theorem C01_h4 : C01Statement hashOf shake256 4 := C01_height hashOf shake256 4 bds_h4 (by decide) (by decide) (by decide)
-theorem C01_h6 : C01Statement hashOf shake256 6 := C01_height hashOf shake256 6 bds_h6 (by decide) (by decide) (by decide)
-theorem C01_h8 : C01Statement hashOf shake256 8 := C01_height hashOf shake256 8 bds_h8 (by decide) (by decide) (by decide)
-theorem C01_h10 : C01Statement hashOf shake256 10 := C01_height hashOf shake256 10 bds_h10 (by decide) (by decide) (by decide)
+theorem C01_h4 : C01Statement hashOf shake256 4 := C01_height hashOf shake256 4 (traversal_of_checkAll _ bds_h4) (by decide) (by decide) (by decide)
+theorem C01_h6 : C01Statement hashOf shake256 6 := C01_height hashOf shake256 6 (traversal_of_checkAll _ bds_h6) (by decide) (by decide) (by decide)
+theorem C01_h8 : C01Statement hashOf shake256 8 := C01_height hashOf shake256 8 (traversal_of_checkAll _ bds_h8) (by decide) (by decide) (by decide)
+theorem C01_h10 : C01Statement hashOf shake256 10 := C01_height hashOf shake256 10 (traversal_of_checkAll _ bds_h10) (by decide) (by decide) (by decide)
+/-- height 12: the label-level check is assembled from 13 kernel-checked segment certificates of 315 indices -/
+theorem C01_h12 : C01Statement hashOf shake256 12 := C01_height hashOf shake256 12 Seg12.traversal (by decide) (by decide) (by decide)
 
 /-- the full property (all supported heights) reduces to the label-level check of each height; proved above
 for 4..10, open for 12..30 (`C01_partial`) -/
-theorem C01_partial (h : Nat) (h4 : 4 ≤ h) (heven : h % 2 = 0) (h30 : h ≤ 30) (hc : checkAll h = true) :
+theorem C01_partial (h : Nat) (h4 : 4 ≤ h) (heven : h % 2 = 0) (h30 : h ≤ 30) (hc : TraversalCorrect h) :
     C01Statement hashOf shake256 h := C01_height hashOf shake256 h hc h4 heven h30
 
 end
